@@ -640,7 +640,7 @@ def prims():
     return [Prim(n) for n in PRIM_NAMES]
 
 
-EN = Enum("En", [("A", 0), ("B", 5), ("C", 6)])
+EN = Enum("En", [("A", 7), ("B", 2), ("C", 3)])   # non-monotonic; C is implicit (previous + 1, not highest + 1)
 ENN = Enum("EnN", [("N", -2147483648), ("M", -2), ("Z", 0), ("P", 7), ("X", 2147483647)])
 ST = Struct("St", [("a", Prim("u8")), ("b", Prim("u32"))])
 
